@@ -197,6 +197,7 @@ PROPS["C11"] = dict(
         stage("regen", binary="c11py", workers=1),
         stage("rows"),
         stage("random", kind="rc", quick=2000, thorough=150000, max_size=100),
+        stage("sequences", kind="rc", quick=2000, thorough=100000, max_size=100),
         stage("gencsv", binary="c11py", workers=8, quick=15, thorough=400),
     ],
     rule="Programs: util/gentld.pl and util/gen_utf8_pass_test.pl, run unmodified (a) on the shipped CSVs, output compared line by line with the shipped "
@@ -226,6 +227,7 @@ PROPS["C01"] = dict(
         stage("corpus"),
         stage("lengths"),
         stage("bounded"),
+        stage("literals"),
         stage("random", kind="rc", quick=10000, thorough=300000, max_size=100),
     ],
     rule="Addresses: all strings of length 0-7 (quick) / 0-8 (thorough) over {a @ . [ ] 1 : \"}; local parts of 58-72 octets in 7 word shapes "
@@ -277,6 +279,7 @@ PROPS["C15"] = dict(
         stage("setup", workers=1),
         stage("codes", workers=1),
         stage("targets"),
+        stage("literals"),
         stage("random", kind="rc", quick=10000, thorough=300000, max_size=100),
     ],
     rule="Inputs: the repository corpus and ~45 hand-picked addresses (one or more per error code), each with every one-byte insertion / replacement "
@@ -304,6 +307,7 @@ PROPS["C16"] = dict(
         stage("corpus"),
         stage("forms"),
         stage("bounded"),
+        stage("literals"),
         stage("random", kind="rc", quick=8000, thorough=300000, max_size=100),
     ],
     rule="All strings of length <= 6 (quick) / <= 7 (thorough) over {a @ . [ ] 1 : \"}; 8 local-part forms x 23 domain forms (host, reserved, "
